@@ -212,6 +212,24 @@ def check_restoring(w, rep):
             if not ok:
                 continue
             m = dict(zip(sym_atoms_of(I["zeta"]), z.flat()))
+            # the same loop hovering at heading pi (q = q_r = (0,0,0,1), an exactly rational attitude): the force is a
+            # WORLD-frame vector, so its gain with respect to the world position must still be negative
+            qpi = cm.to_mat([0, 0, 0, 1])
+            okp, zpi = guarded(w, rep, R, "se23_error at heading pi", lambda: closed(w, fe(p, v, qpi, pr, vr, qpi)))
+            if okp:
+                mpi = dict(zip(sym_atoms_of(I["zeta"]), zpi.flat()))
+                with with_maxdeg(30):
+                    upi = closed(w, subs_syms(u, mpi))
+                    for name, atoms in (("position", pa), ("velocity", va)):
+                        for i in range(3):
+                            d = canon(subs_syms(MatVal(1, 1, [[canon(upi.cells[i][0]).diff(atoms[i])]]), at_eq).s())
+                            c = d.const_value()
+                            inst = "%s: d F[%d] / d %s[%d] hovering at heading pi < 0 (restoring)" % (key, i, name, i)
+                            if c is None:
+                                rep.incomplete(R, inst, "not a constant: %s" % short(d, 80), where=W)
+                            else:
+                                rep.check(R, inst, c < 0, "hovering at heading pi the world-frame %s feedback gain is %s: the SE_2(3) error X^-1 X_r is expressed in the BODY frame but added to the "
+                                          "world-frame thrust vector, so the horizontal loop gain rotates with the heading and is positive feedback at 180 degrees" % (name, c), where=W, fact={"gain": str(c)})
         with with_maxdeg(30):
             u = closed(w, subs_syms(u, m))
             zinc = closed(w, subs_syms(zinc, m)) if zinc is not None else None
@@ -403,5 +421,5 @@ def run(w, rep, tier):
     rep.floor("C17.limits", 8)
     check_gains(w, rep)
     rep.floor("C17.signs", 16)
-    rep.floor("C17.restoring", 40)
+    rep.floor("C17.restoring", 46)
     rep.undecided_clause("stabilisation of the closed loop (convergence of trajectories): NOT decided by static analysis; the script needs ROS and cannot even be imported here")
